@@ -52,9 +52,12 @@ def to_code_data(code: CodeType) -> CodeData:
             flags_data=flags_data,
         )
     )
-    assert ("NOFREE" in flags_data) == (
+    if ("NOFREE" in flags_data) != (
         (not code.co_freevars) and (not code.co_cellvars)
-    ), "NOFREE is set if and only if there are no cellvars and no freevars"
+    ):
+        raise AssertionError(
+            "NOFREE is set if and only if there are no cellvars and no freevars"
+        )
 
     flags_data -= {"NOFREE"}
 
@@ -68,7 +71,8 @@ def to_code_data(code: CodeType) -> CodeData:
     fn_flags = flags_data & FN_FLAGS
     if len(fn_flags) == 0:
         block_type = None
-        assert not args, "if this isn't a function, it shouldn't have args"
+        if args:
+            raise AssertionError("if this isn't a function, it shouldn't have args")
     elif len(fn_flags) == 2:
         # Use the first const as a docstring if its a string
         # https://github.com/python/cpython/blob/da8be157f4e275c4c32b9199f1466ed7e52f62cf/Objects/funcobject.c#L33-L38
@@ -76,7 +80,8 @@ def to_code_data(code: CodeType) -> CodeData:
             constants[0] if constants and isinstance(constants[0], str) else None
         )
         fn_tp_flags = cast(Set[FunctionType], FN_TYPE_FLAGS & flags_data)
-        assert len(fn_tp_flags) in {0, 1}
+        if len(fn_tp_flags) not in {0, 1}:
+            raise AssertionError(f"More than one function type: {fn_tp_flags}")
         fn_tp = fn_tp_flags.pop() if fn_tp_flags else None
         if fn_tp:
             flags_data.remove(fn_tp)
@@ -140,9 +145,8 @@ def from_code_data(code_data: CodeData) -> CodeType:
         kwonlyargcount = args_input.kwonlyargcount
         flags_data = args_input.flags_data
 
-        assert (
-            varnames[: len(args_input.varnames)] == args_input.varnames
-        ), "varnames should start with args"
+        if varnames[: len(args_input.varnames)] != args_input.varnames:
+            raise AssertionError("varnames should start with args")
     else:
         argcount = 0
         posonlyargcount = 0
